@@ -555,6 +555,11 @@ impl ErasedNode for Node {
         if let Some(Kind::Expert(expert)) = self.kind() {
             expert.observability_change(true)
         }
+        if let Some(Kind::MapRef(mapref)) = self.kind() {
+            // child_changed was not called while we were unlinked from our input, so the cached
+            // did_change bit says nothing about changes made in the meantime.
+            mapref.did_change.set(true);
+        }
     }
 
     fn check_if_unnecessary(&self, state: &State) {
